@@ -1507,14 +1507,20 @@ impl TypeChecker {
         // Skip the first parameter if we are checking a method
         let params =
             if let ResolvedPath::Method { value, .. } = &resolved_path {
-                self.unify(
-                    value.final_type(),
-                    &signature.parameter_types[0],
-                    MetaId(0),
-                    None,
-                )?;
+                // A function without parameters has no receiver, so it
+                // cannot be called as a method on a value.
+                let Some((receiver, params)) =
+                    signature.parameter_types.split_first()
+                else {
+                    return Err(self.error_no_method_on_type(
+                        value.final_type(),
+                        last_ident,
+                    ));
+                };
 
-                &signature.parameter_types[1..]
+                self.unify(value.final_type(), receiver, MetaId(0), None)?;
+
+                params
             } else {
                 &signature.parameter_types
             };
